@@ -33,8 +33,11 @@ MANIFEST = {
             'NoPC-task monitor); the model abstracts data (labels only) and takes all parties to run the same program '
             'tree. Not proved: wf_progress (termination under fair delivery) - termination is checked by the '
             'simulator only (completion of all parties under every explored schedule); `_hop` collision-freedom is not '
-            'proved, it is checked on the labels observed in each run (see C09). Known open findings: runtime.mod and '
-            'runtime.np_roll (secure shift) are NoPC but fork after their first await.',
+            'proved, it is checked on the labels observed in each run (see C09). The two findings of this check (F-C08-1 '
+            'runtime.mod, F-C08-2 runtime.np_roll with a secure shift: NoPC coroutines forking after their first await) '
+            'are FIXED in /repo (commits 3444b17, b1a3c50: both run as mpc_coro); all_wf now holds on the whole table. '
+            'The connection handshake (pid + PRSS keys) is exercised under every schedule of the sessions and with the '
+            'handshake stream cut at chosen byte offsets; its framing proof belongs to C10.',
     'technique': 'Coq invariant proof over a PC transition system + regenerated coroutine table + multi-party simulator replay',
 }
 
@@ -383,16 +386,75 @@ def policies(rng, m, nhold, nrand):
     return out
 
 
+class CutHandshake:
+    """Hands over exactly offsets[link] bytes of the given links first (in one or more data_received calls, across
+    write chunks), nothing else in that round; afterwards FIFO.  Used to cut the client's pid+keys packet."""
+
+    def __init__(self, offsets):
+        from lib.sim import Fifo
+        self.left = dict(offsets)
+        self.fifo = Fifo()
+        self.rounds = 0
+
+    def deliver(self, net):
+        if not self.left:
+            return self.fifo.deliver(net)
+        n = 0
+        self.rounds += 1
+        for link in list(self.left):
+            want = self.left[link]
+            q = net.queues[link]
+            if sum(len(c) for c in q) < want and self.rounds < 30:
+                continue
+            while want > 0 and q:
+                k = min(len(q[0]), want)
+                n += net.deliver(link, k)
+                want -= k
+            del self.left[link]
+        return n
+
+
+def handshake_len(m, t, src, dst):
+    """Bytes the client src (< dst) sends first: its pid and the PRSS keys of the subsets it leads that contain dst."""
+    import itertools
+    return 2 + 16 * sum(1 for S in itertools.combinations(range(m), m - t) if S[0] == src and dst in S)
+
+
+def lagging(m, p, k):
+    """Hold every link into party p for k rounds (one lagging party)."""
+    from lib.sim import Hold
+    return lambda: Hold({(a, p) for a in range(m) if a != p}, k)
+
+
+def nvars(spec):
+    n = 0
+    for o in spec['ops']:
+        if o[0] == 'input':
+            n += len(o[1])
+        elif o[0] in ('input1', 'mul', 'add', 'sub', 'lt', 'ge', 'eq', 'mulc', 'mod', 'modfix', 'call'):
+            n += 1
+    return n
+
+
+def add_unawaited_chain(spec):
+    """Append a dependent chain of secure operations whose results are never awaited (still running at shutdown)."""
+    n = nvars(spec)
+    spec['ops'] += [['mul', 0, 1], ['mul', n, 0], ['lt', n + 1, 1], ['mul', n + 2, n + 1], ['transfer_all', 'Z'],
+                    ['eq', n + 3, 0], ['mul', n + 4, n + 3]]
+    return spec
+
+
 class Session:
     """One simulator (m parties) driven by one schedule family; programs run one after the other."""
 
-    def __init__(self, m, t, seed, no_prss=False):
+    def __init__(self, m, t, seed, no_prss=False, extra=(), start_policy=None):
         from lib.sim import Sim
         self.m, self.t = m, t
         with quiet():
-            self.sim = Sim(m, t, no_prss=no_prss, seed=seed)
+            self.sim = Sim(m, t, no_prss=no_prss, seed=seed, extra=extra)
             self.mon = Monitor(self.sim)
-            st = self.sim.start()
+            # the handshake (pid + PRSS keys) is delivered under the given schedule as well
+            self.start_result = self.sim.start(start_policy)
         self.ok = self.sim.started
         self.close_snap = []     # (src, dst, pending tasks of src, delivered snapshot)
         net = self.sim.net
@@ -628,12 +690,50 @@ def canon_ev(v):
     return tuple(v) if isinstance(v, tuple) else (v,)
 
 
+def handshake_stream(ctx, stats):
+    """PRSS on: the client's first packet (pid + keys) of EVERY connection is cut at a chosen byte offset (all
+    connections at once, one offset class per simulator); start must complete, and a PRSS-using program must give
+    the oracle's outputs (a mis-framed key makes the PRSS shares inconsistent)."""
+    from lib.sim import Fifo
+    rng = ctx.rng
+    for (m, t) in CONFIGS:
+        hl = {(a, b): handshake_len(m, t, a, b) for a in range(m) for b in range(a + 1, m)}
+        mx = max(hl.values())
+        if ctx.tier == 'thorough' or mx <= 18:
+            backs = list(range(1, mx))
+        else:
+            backs = sorted({1, 2, 3, 15, 16, 17, mx - 2, mx - 1, rng.randrange(4, mx - 2)})
+        spec, want = gen_spec(rng, m, 14)
+        for back in backs:        # offset counted from the END of each packet
+            offs = {l: max(1, n - back) for l, n in hl.items()}
+            sess = Session(m, t, ctx.seed + 3, start_policy=CutHandshake(offs))
+            try:
+                key = {'m': m, 't': t, 'handshake_cut_bytes_before_end': back, 'program': spec['ops']}
+                ctx.case(key, nontrivial=True, kind='(%d,%d) handshake cut' % (m, t))
+                stats['handshake_cuts'] += 1
+                if not sess.ok:
+                    ctx.violation('start (handshake) did not complete with the pid+keys packet cut %d bytes before its end' % back,
+                                  {'case': key, 'start': sess.start_result})
+                    continue
+                res, _ = sess.run(spec, Fifo, idle_limit=300)
+                if is_bad(res) or any(r != want for r in res):
+                    ctx.violation('wrong or missing outputs after a handshake whose pid+keys packet was cut %d bytes before its end' % back,
+                                  {'case': key, 'results': res, 'want': want})
+                    continue
+                sd = sess.shutdown(Fifo)
+                if any(r is not True for r in sd):
+                    ctx.violation('shutdown incomplete after cut handshake', {'case': key, 'shutdown': sd})
+            finally:
+                sess.close()
+
+
 def run(ctx):
     ok = ctx.build() and ctx.check_props()
     ctx.rule = ('case = (program, configuration (m,t), schedule); programs are random secure-integer op lists (mul, '
                 'comparisons, %, input, output, one-sender and all-to-all transfer, gather, awaits of earlier futures at '
                 'varying distances); schedules: Fifo, RandomOrder seeds, Bytewise, ReverseLinks, Hold on single directed '
-                'links; non-trivial when the program has >= 1 await between two secure operations')
+                'links - applied to the connection handshake as well; plus handshakes with the pid+keys packet of every '
+                'connection cut at chosen byte offsets; non-trivial when the program has >= 1 await between two secure operations')
     ctx.explanation = ('theorems over all programs/schedules in the PC model; regenerated table of all %s coroutines; '
                        'simulator: completion + oracle + cross-schedule equality + full label replay through Coq')
     rng = ctx.rng
@@ -659,11 +759,12 @@ def run(ctx):
             if time.time() - t_sim0 > t_budget * (ci + 1) / len(CONFIGS):
                 ctx.notes.append('time budget reached: skipped schedule %s for (m,t)=(%d,%d)' % (pn, m, t))
                 continue
-            sess = Session(m, t, ctx.seed + 3)       # same party tapes for every schedule: outputs must be equal
+            sess = Session(m, t, ctx.seed + 3, start_policy=pf())   # same party tapes for every schedule: outputs must be equal
             try:
                 for pi, (spec, want, with_mod) in enumerate(progs):
                     if not sess.ok:
-                        ctx.violation('start failed', {'m': m, 't': t, 'schedule': pn})
+                        ctx.violation('start (handshake) did not complete under %s (m=%d,t=%d)' % (pn.split(':')[0], m, t),
+                                      {'m': m, 't': t, 'schedule': pn, 'start': sess.start_result})
                         break
                     res, starts = sess.run(spec, pf)
                     key = {'m': m, 't': t, 'schedule': pn, 'program': spec['ops']}
@@ -733,6 +834,7 @@ def run(ctx):
                                       {'m': m, 't': t, 'schedule': pn, 'shutdown': sd})
             finally:
                 sess.close()
+    handshake_stream(ctx, stats)
     ctx.log('simulator: %s' % dict(stats))
     # model replay: the Coq label function on the logged call tree with the real hop table must reproduce the labels
     if ok and replay_items:
